@@ -128,6 +128,10 @@ def run_corr(job):
         return [{"what": "exception", "detail": "%s: %s" % (type(ex).__name__, str(ex)[:160])}]
     if case["error"]:
         return [{"what": "out-of-range-accepted"}]
+    seen = getattr(system, "start_times", None) or []
+    if any(abs(x - start) > 1e-12 for x in seen):
+        # the dynamics would sample a time-dependent system at times that do not belong to the returned axes
+        return [{"what": "system-propagators-requested-for-wrong-start-time", "expected": start, "observed": seen[:3]}]
     idx = [probes.norm_seq(x) for x in probes.norm_seq(case["idx"])]
     if any(len(i) == 0 for i in idx):
         return []          # an empty selection: the property says nothing about it
@@ -350,6 +354,8 @@ def run(ctx):
     import itertools
     reqs = ["occ", (0.2, 0.4), (0.4, 0.8)]
     bjobs = [(list(p), temp) for p in itertools.permutations(reqs) for temp in (0.0, 0.8)]
+    # the very first request on a fresh object, at the earliest possible times (one step)
+    bjobs += [([(0.1, 0.1)], 0.0), ([(0.1, 0.1), "occ", (0.1, 0.2)], 0.8), ([(0.1, 0.2)], 0.8)]
     for j, mm in zip(bjobs, core.pmap(bath_dynamics_job, bjobs)):
         ctx.case({"bath_dynamics_requests": [str(x) for x in j[0]], "T": j[1]}, nontrivial=True)
         for x in mm:
